@@ -138,16 +138,18 @@ pub fn set_mode(mode: Mode) {
     }
 }
 
-/// the Begin events recorded so far with index >= `from` (trace lines for the placement monitor)
+/// the events (Begin and End, in the order the hook saw them) recorded since the Begin event with index `from`
+/// (trace lines for the placement / order monitors; an End line carries the index of the next Begin)
 pub fn trace_lines_since(from: u64) -> Vec<String> {
     let g = STATE.lock().unwrap();
     match g.as_ref() {
-        Some(s) => s
-            .log
-            .iter()
-            .filter(|e| e.phase == Phase::Begin && e.idx >= from)
-            .map(|e| format!("{} {:?} {:?} {} {} {} {} t{}", e.idx, e.phase, e.kind, e.file, e.offset, e.len, e.site, e.thread))
-            .collect(),
+        Some(s) => {
+            let start = s.log.iter().position(|e| e.phase == Phase::Begin && e.idx >= from).unwrap_or(s.log.len());
+            s.log[start..]
+                .iter()
+                .map(|e| format!("{} {:?} {:?} {} {} {} {} t{}", e.idx, e.phase, e.kind, e.file, e.offset, e.len, e.site, e.thread))
+                .collect()
+        }
         None => vec![],
     }
 }
